@@ -55,6 +55,9 @@ func (t *transport) Close() error {
 
 func (t *transport) WriteMsg(msg messages.Common, requireToAck bool) error {
 	verifYield("write", msg)
+	if err := verifFault("write", msg); err != nil {
+		return err
+	}
 	var data []byte
 	switch message := msg.(type) {
 	case *messages.Unencrypted:
